@@ -9,11 +9,13 @@ and each Enter is answered by exactly one new prompt. The command history keeps 
 stored lines in order, and !n, !-n and !! re-run exactly the addressed entry or report an error
 when it does not exist."
 
-`Cfg.fixed` is the code with patches/C13-01..06 applied (what the model describes and the check
+`Cfg.fixed` is the code with patches/C13-01..07 applied (what the model describes and the check
 runs against); `Cfg.legacy` the code as found, for which the counterexamples are proved.
 -/
 import TboxModel.C13.ProofsTelnet
 import TboxModel.C13.ProofsScan
+import TboxModel.C13.ProofsSessions
+import TboxModel.C13.ProofsSplit
 namespace Tbox.C13
 
 /-! ## C13_editor_refines -/
@@ -328,30 +330,35 @@ theorem C13_history_rerun (hist : List Str) (t : Str) (hl : hist.length ≤ hist
 
 /-! ## C13_total -/
 
-/-- **C13_total.** For EVERY op sequence — any node tree, any option changes, any loop passes, and
-in particular any received byte strings in any segmentation, on the terminal as well as on the telnet
-and raw-TCP front ends — the repaired code never reaches an outcome that stands for a crash, an
-uncaught exception or an invalid access: no use of a freed session, no `back()` of an empty history,
-no escaping `std::out_of_range`, no `-INT_MIN`, no history index outside `[0, size)`, no cursor
-outside the line, no unbounded `execute` recursion, no `tree` fuel exhaustion, no read past the
-received telnet bytes, no `map::at` with an absent session. -/
+/-- **C13_total.** For EVERY op sequence — any node tree, any number of interleaved sessions on the
+eight slots (recording connections, two telnet clients, a raw-TCP client, the stdio service), option
+changes, connects / disconnects / reconnects, loop passes, a teardown of the whole terminal while exit
+tasks are queued, and in particular any received byte strings in any segmentation — the repaired code
+never reaches an outcome that stands for a crash, an uncaught exception or an invalid access: no use
+of a freed session or terminal, no `back()` of an empty history, no escaping `std::out_of_range`, no
+`-INT_MIN`, no history index outside `[0, size)`, no cursor outside the line, no unbounded `execute`
+recursion, no `tree` fuel exhaustion, no read past the received telnet bytes, no `map::at` with an
+absent session. -/
 theorem C13_total (ops : List Op) : ∀ e ∈ (run Cfg.fixed {} ops).2, e.isBad = false :=
-  run_safe {} ops (by intro s hs; simp at hs)
+  run_safe {} ops winv_init
 
-/-- The code as found violates it, four ways in the shell: `exit;exit` + a loop pass (freed session
-used), `!!` with an empty history, `!99999999999` (uncaught `std::out_of_range`), `!-2147483648`
-(negation overflow); and in the front ends (`C13_telnet_legacy_counterexample`). -/
+/-- The code as found violates it: `exit;exit` + a loop pass (freed session used), `!!` with an empty
+history, `!99999999999` (uncaught `std::out_of_range`), `!-2147483648` (negation overflow),
+`send()` after the session ended (`map::at`), and `exit` followed by the destruction of the terminal
+before the next loop pass (the queued task runs on the destroyed terminal) — the last one still with
+patches 01..06 applied. -/
 theorem C13_total_legacy_counterexample :
     (run Cfg.legacy {} [.openS 0, .recv [101, 120, 105, 116, 59, 101, 120, 105, 116, 13, 10], .pass]).2.contains (.bad .useAfterFree) = true ∧
     (run Cfg.legacy {} [.openS 0, .recv [33, 33, 13, 10]]).2.contains (.bad .emptyBack) = true ∧
     (run Cfg.legacy {} [.openS 0, .recv [33, 57, 57, 57, 57, 57, 57, 57, 57, 57, 57, 57, 13, 10]]).2.contains (.bad .uncaughtRange) = true ∧
     (run Cfg.legacy {} [.openS 0, .recv [33, 45, 50, 49, 52, 55, 52, 56, 51, 54, 52, 56, 13, 10]]).2.contains (.bad .negOverflow) = true ∧
-    (run Cfg.legacy {} [.front true .conn, .front true .endS, .front true .send]).2.contains (.bad .mapAt) = true := by
+    (run Cfg.legacy {} [.front true .conn, .front true .endS, .front true .send]).2.contains (.bad .mapAt) = true ∧
+    (run { Cfg.fixed with cancelExit := false } {} [.xconn 4, .xrecv 4 [101, 120, 105, 116, 13, 10], .teardown]).2.contains (.bad .useAfterFree) = true := by
   decide +kernel
 
 -- non-vacuity of C13_total: the same inputs on the repaired model, with what is sent instead
 example : untag (run Cfg.fixed {} [.openS 2, .recv [33, 33, 13, 10]]).2 =
-    [.line "ret=1", .exec [33, 33], .tx .out Msg.idxRange, .line "ret=1"] := by
+    [.slot 0, .slot 8, .line "ret=1", .slot 0, .exec [33, 33], .tx .out Msg.idxRange, .slot 8, .line "ret=1"] := by
   decide +kernel
 
 
@@ -417,5 +424,194 @@ theorem C13_scanner_decodes (l : List (Str × Key)) (h : ∀ p ∈ l, encOk p = 
   exact ⟨recvKeys_decodes l h true, recvKeys_decodes_cr l h true⟩
 
 example : encOk ([27, 91, 68], .left) = true ∧ encOk ([97], .char 97) = true ∧ encOk ([13, 0], .enter) = true := by decide
+
+/-! ## C13_sessions_independent -/
+
+/-- **C13_sessions_independent.** Sessions do not disturb each other (code as found and repaired code
+alike): an op changes no session slot other than those it `touches` — its own slot; and a loop pass
+(also the passes inside the stdio ops) changes slot `j` only if an exit task of slot `j`'s CURRENT
+session — (slot, generation), i.e. the session token — is queued. In particular `exit` typed in one
+session ends that session only, editor state and history of every other session stay what they were,
+and an exit task left over from an earlier session of a slot (a stale token) never touches the
+session that now occupies the slot. -/
+theorem C13_sessions_independent (cfg : Cfg) (w : World) (op : Op) (r : World × List Ev) (j : Nat)
+    (hs : step cfg w op = some r) (ht : touches w op j = false) : r.1.slot j = w.slot j := by
+  cases op with
+  | sel k => simp only [step] at hs; split at hs <;> first | (cases hs; rfl) | simp at hs
+  | openS o =>
+    simp only [touches, beq_eq_false_iff_ne] at ht
+    simp only [step] at hs; split at hs
+    · cases hs; exact slot_setSlot_ne w _ j _ (Ne.symm ht)
+    · simp at hs
+  | recv bs =>
+    simp only [touches, beq_eq_false_iff_ne] at ht
+    simp only [step] at hs; split at hs
+    · split at hs
+      · cases hs; rfl
+      · cases hs; exact deliver_other cfg w _ j bs (Ne.symm ht)
+    · simp at hs
+  | pass =>
+    simp only [touches] at ht
+    simp only [step] at hs; cases hs
+    exact doPass_other cfg w j ht
+  | teardown => simp [touches] at ht
+  | opt n =>
+    simp only [touches, beq_eq_false_iff_ne] at ht
+    simp only [step] at hs; split at hs
+    · split at hs
+      · cases hs; rfl
+      · cases hs; exact slot_setSlot_ne w _ j _ (Ne.symm ht)
+    · simp at hs
+  | winsz a b => simp only [step] at hs; split at hs <;> first | (cases hs; rfl) | simp at hs
+  | close =>
+    simp only [touches, beq_eq_false_iff_ne] at ht
+    simp only [step] at hs; split at hs
+    · cases hs; exact slot_setSlot_ne w _ j _ (Ne.symm ht)
+    · simp at hs
+  | xconn k =>
+    simp only [touches, beq_eq_false_iff_ne] at ht
+    simp only [step] at hs; split at hs
+    · cases hs; exact slot_setSlot_ne w _ j _ (Ne.symm ht)
+    · simp at hs
+  | xrecv k bs =>
+    simp only [touches, beq_eq_false_iff_ne] at ht
+    simp only [step] at hs; split at hs
+    · next hk =>
+      split at hs
+      · next h6 =>
+        subst h6
+        split at hs
+        · cases hs; rfl
+        · cases hs; exact deliver_other cfg w 6 j _ (Ne.symm ht)
+      · cases hs; exact slot_setSlot_ne w _ j _ (Ne.symm ht)
+    · simp at hs
+  | xdisc k =>
+    simp only [touches, beq_eq_false_iff_ne] at ht
+    simp only [step] at hs; split at hs
+    · cases hs; exact slot_setSlot_ne w _ j _ (Ne.symm ht)
+    · simp at hs
+  | sstart =>
+    simp only [touches, Bool.or_eq_false_iff, beq_eq_false_iff_ne] at ht
+    simp only [step] at hs; split at hs
+    · cases hs
+      have h7 := slot_setSlot_ne w 7 j { w.slot 7 with fstate := 1, gen := (w.slot 7).gen + 1, sess := some { opts := 1 } } (Ne.symm ht.1)
+      rw [doPass_other cfg _ j (by rw [h7]; exact ht.2), h7]
+    · simp at hs
+  | srecv bs =>
+    simp only [touches, Bool.or_eq_false_iff, beq_eq_false_iff_ne] at ht
+    simp only [step] at hs; split at hs
+    · cases hs
+      simp only
+      by_cases hb : bs = []
+      · simp only [hb, if_true]; exact doPass_other cfg w j ht.2
+      · simp only [hb, if_false]
+        by_cases h1 : (w.slot 7).fstate = 1
+        · simp only [h1, if_true]
+          have hd := deliver_other cfg w 7 j bs (Ne.symm ht.1)
+          obtain ⟨n, hn⟩ := deliver_exits cfg w 7 bs
+          rw [doPass_other cfg _ j ?_, hd]
+          rw [hd, hn]
+          have hc : (w.exits ++ List.replicate n (7, (w.slot 7).gen)).contains (j, (w.slot j).gen) = false := by
+            rw [Bool.eq_false_iff]; intro hh
+            rcases List.mem_append.mp (List.contains_iff_mem.mp hh) with h2 | h2
+            · have := List.contains_iff_mem.mpr h2; rw [ht.2] at this; cases this
+            · have := (List.mem_replicate.mp h2).2; simp at this; exact ht.1 this.1
+          exact hc
+        · simp only [h1, if_false]
+          have h7 := slot_setSlot_ne w 7 j { w.slot 7 with fstate := 1, gen := (w.slot 7).gen + 1, sess := some { opts := 1 } } (Ne.symm ht.1)
+          rw [doPass_other cfg _ j (by rw [h7]; exact ht.2), h7]
+    · simp at hs
+  | sstop =>
+    simp only [touches, Bool.or_eq_false_iff, beq_eq_false_iff_ne] at ht
+    simp only [step] at hs; split at hs
+    · cases hs
+      have h7 := slot_setSlot_ne w 7 j { w.slot 7 with fstate := 3, sess := none } (Ne.symm ht.1)
+      rw [doPass_other cfg _ j (by rw [h7]; exact ht.2), h7]
+    · simp at hs
+  | mkdir => simp only [step] at hs; split at hs <;> first | (cases hs; rfl) | simp at hs
+  | mkfunc => simp only [step] at hs; split at hs <;> first | (cases hs; rfl) | simp at hs
+  | mount p c name =>
+    simp only [step] at hs; repeat' split at hs
+    all_goals first | (cases hs; rfl) | simp at hs
+  | umount p name =>
+    simp only [step] at hs; repeat' split at hs
+    all_goals first | (cases hs; rfl) | simp at hs
+  | rmnode i =>
+    simp only [step] at hs; repeat' split at hs
+    all_goals first | (cases hs; rfl) | simp at hs
+  | split bs => simp only [step] at hs; cases hs; rfl
+  | front isTel f =>
+    simp only [step] at hs
+    split at hs
+    · cases hf : frontStep cfg true w.tel f with
+      | none => simp [hf] at hs
+      | some x => simp [hf] at hs; cases hs; rfl
+    · cases hf : frontStep cfg false w.rpc f with
+      | none => simp [hf] at hs
+      | some x => simp [hf] at hs; cases hs; rfl
+
+-- non-vacuity: two telnet clients and a raw-TCP client; client 4 exits; the others keep their state
+example :
+    let w := (run Cfg.fixed {} [.xconn 4, .xconn 5, .xconn 6, .xrecv 5 [112, 119, 100, 13, 10], .xrecv 4 [101, 120, 105, 116, 13, 10]]).1
+    touches w .pass 5 = false ∧ touches w .pass 6 = false ∧ touches w .pass 4 = true ∧
+    ((step Cfg.fixed w .pass).map fun r => ((r.1.slot 4).fstate, (r.1.slot 5).sess.map (·.hist))) =
+      some (2, some [[112, 119, 100]]) := by
+  decide +kernel
+
+/-! ## C13_split (util::SplitCmdline) -/
+
+/-- **C13_split_unbalanced.** `SplitCmdline` fails exactly when a quote is left open — for every input;
+otherwise it returns a list of arguments. (A clean `false`: the model is total, and the code is tied
+to it by direct `split` ops, every byte string included.) -/
+theorem C13_split_unbalanced (s : Str) : splitCmdline s = none ↔ openQuote none s ≠ none :=
+  splitGo_none_iff s .blank []
+
+/-- **C13_split_words.** Arguments without blanks and quotes, joined by single blanks, are split back
+into exactly those arguments — for every such list. -/
+theorem C13_split_words (args : List Str) (h : ∀ a ∈ args, a ≠ [] ∧ a.all plainChar = true) :
+    splitCmdline (joinSp args) = some args := by
+  have := split_join_aux args h []
+  simpa [splitCmdline] using this
+
+/-- **C13_split_quoted.** The quoting rules: an argument that starts with a quote runs to the matching
+quote, blanks and the other quote character included, and loses the quotes; a quoted part inside an
+unquoted argument (`--key="hello world"and'more'`) keeps the argument whole, quotes included. -/
+theorem C13_split_quoted (q : UInt8) (hq : isQuote q = true) (a : Str) (ha : q ∉ a)
+    (pre : Str) (hpre : pre ≠ [] ∧ pre.all plainChar = true) (post : Str) (hpost : post.all plainChar = true) :
+    splitCmdline (q :: a ++ [q]) = some [a] ∧
+    splitCmdline (pre ++ q :: a ++ q :: post) = some [pre ++ q :: a ++ q :: post] := by
+  constructor
+  · have hb : isBlank q = false := by
+      cases hh : isBlank q with
+      | false => rfl
+      | true => rw [blank_not_quote hh] at hq; cases hq
+    simp only [splitCmdline, List.cons_append, splitGo, hb, hq, if_true]
+    have := quoted_run q a ha [] [] []
+    simp only [List.append_nil] at this
+    rw [this]; simp [splitGo]
+  · obtain ⟨c, p', rfl⟩ : ∃ c p', pre = c :: p' := by
+      cases pre with
+      | nil => exact absurd rfl hpre.1
+      | cons c p' => exact ⟨c, p', rfl⟩
+    have hp := hpre.2
+    simp only [List.all_cons, Bool.and_eq_true] at hp
+    have hc := hp.1
+    simp only [plainChar, Bool.and_eq_true, Bool.not_eq_true'] at hc
+    have hb : isBlank q = false := by
+      cases hh : isBlank q with
+      | false => rfl
+      | true => rw [blank_not_quote hh] at hq; cases hq
+    simp only [splitCmdline, List.cons_append, splitGo, hc.1, hc.2]
+    rw [List.append_assoc, tok_run p' hp.2 [c]]
+    simp only [List.cons_append, splitGo, hb, hq, if_true]
+    rw [tokQ_run q a ha]
+    have := tok_run post hpost (q :: (a.reverse ++ q :: (p'.reverse ++ [c]))) [] []
+    simp only [List.append_nil] at this
+    rw [this]
+    simp [splitGo]
+
+example : splitCmdline [97, 32, 34, 98, 32, 99, 34, 32, 45, 107, 61, 39, 118, 32, 119, 39, 122] =
+    some [[97], [98, 32, 99], [45, 107, 61, 39, 118, 32, 119, 39, 122]] ∧
+    splitCmdline [97, 32, 34, 98] = none := by decide
 
 end Tbox.C13
